@@ -331,7 +331,7 @@ def run(ctx):
             run_case(ctx, r["case"], {"ps": r["ps"], "status": r["status"], "amb": r["amb"]},
                      (ctx.seed * 7919 + i) % 100003, "small")
     if not only or "file" in only:
-        n = ctx.pick(500, 8000)
+        n = ctx.pick(500, 20000)
         rng = random.Random(ctx.seed * 104729 + 9)
         cases = [gen_case(rng, i + 1, big=(i % 4 == 0)) for i in range(n)]
         path = os.path.join(ctx.sub("file"), "cases.ndjson")
